@@ -228,7 +228,9 @@ func (c *httpClient) newRequest(ctx context.Context, body []byte) (request, erro
 	req := request{Request: r}
 
 	switch c.compression {
-	case NoCompression:
+	default:
+		// NoCompression. An unknown Compression value is also sent uncompressed
+		// instead of leaving the request without a body (nil dereference on send).
 		r.ContentLength = (int64)(len(body))
 		req.bodyReader = bodyReader(body)
 	case GzipCompression:
